@@ -636,10 +636,14 @@ structure NumPy where
 `get_class` walks the namespace components with `do_import`: try `pkg.comp`, on `ImportError` try `pkg.comp_`
 (the generator suffixes reserved names — keywords *and* builtins — with an underscore). -/
 
+/-- A generated type as the alias filter sees it.  `deprecated` (`@deprecated` in the definition) is carried along to
+make explicit that the alias selection does NOT consult it: the newest minor is aliased even when it is deprecated
+and an older minor is not. -/
 structure TyId where
   name : String
   major : Nat
   minor : Nat
+  deprecated : Bool := false
   deriving DecidableEq, Repr
 
 /-- `max` by the *integer* minor version. -/
@@ -661,7 +665,7 @@ def aliasesFrom (all : List TyId) : List TyId → List TyId → List TyId
     if seen.any (fun u => u.name = t.name ∧ u.major = t.major) then aliasesFrom all seen ts
     else
       match newestMinor all t.name t.major with
-      | some k => ⟨t.name, t.major, k⟩ :: aliasesFrom all (t :: seen) ts
+      | some k => ⟨t.name, t.major, k, false⟩ :: aliasesFrom all (t :: seen) ts
       | none => aliasesFrom all (t :: seen) ts
 
 def aliases (tys : List TyId) : List TyId := aliasesFrom tys [] tys
